@@ -109,6 +109,16 @@ def gen_cases(ctx, n_per_kind):
                 p["xc"], p["yc"] = float(N / 2 + rng.uniform(-2, 2)), float(N / 2 + rng.uniform(-2, 2))
                 sc["cross"] = True
                 cases.append(RC.cast32_scene(sc))
+        # scenes on which the automatic guesses (SourceProperties) are compared with the rendered convention: identity PSF, oblique
+        if kind == "pixel":
+            for i in range(2):
+                N = [48, 49][i]
+                sc = RC.gen_scene(rng, kind, N, np.ones((1, 1)), types=["sersic"], mode="single", suffix="", pos_styles=("frac",), n_range=(0.9, 1.5))
+                p = sc["params"]
+                p["r_eff"], p["ellip"], p["flux"] = float(rng.uniform(3.0, 4.0)), float(rng.uniform(0.5, 0.7)), float(rng.uniform(200, 800))
+                p["theta"] = float([rng.uniform(0.4, 1.2), rng.uniform(1.9, 2.7)][i])
+                p["xc"], p["yc"] = float(rng.uniform(N // 2 - 3, N // 2 + 2)), float(rng.uniform(N // 2 - 3, N // 2 + 2))
+                cases.append(RC.cast32_scene(sc))
         # a Sersic profile with a point source on top: both parts share the centre (xc, yc) — judged by the centroid alone
         for i in range(max(2, n_per_kind // 6)):
             N = [48, 49][i % 2]
